@@ -153,12 +153,12 @@ impl IOCtx {
         }
         // Check if the temp file already exists and has the same content
         if export_file.as_path().exists() {
-            let current_content = fs::read_to_string(&export_file)
+            let current_content = fs::read(&export_file)
                 .change_context_lazy(|| make_error!(self, PpErrorKind::ReadFile))
                 .attach_printable_lazy(|| {
                     format!("could not read existing temp file: `{export_file}`")
                 })?; // early return because if we can't read it, we probably can't write it either
-            if current_content == contents {
+            if current_content == contents.as_bytes() {
                 log::debug!("temp file already exists with same content, skipping");
                 return Ok(());
             }
@@ -178,12 +178,12 @@ impl IOCtx {
                 .attach_printable_lazy(|| format!("could not write to `{}`", path.display())),
             CtxOut::InMemoryBuild { path, out } => {
                 if path.as_path().exists() {
-                    let current_content = fs::read_to_string(path.as_path())
+                    let current_content = fs::read(path.as_path())
                         .change_context_lazy(|| make_error!(self, PpErrorKind::ReadFile))
                         .attach_printable_lazy(|| {
                             format!("could not read existing output file: `{}`", path.display())
                         })?; // early return because if we can't read it, we probably can't write it either
-                    if &current_content == out {
+                    if current_content == out.as_bytes() {
                         log::debug!("output file already exists with same content, skipping");
                         return Ok(());
                     }
